@@ -600,6 +600,29 @@ Proof.
     rewrite H3, H4. exact IH.
 Qed.
 
+Lemma utf8b_utf8_n : forall n s, length s <= n -> utf8b s = true -> utf8 s.
+Proof.
+  unfold utf8b. induction n as [|n IH]; intros s Hl H.
+  - destruct s; [constructor | cbn in Hl; lia].
+  - destruct s as [|b0 r]; [constructor|]. cbn [length] in Hl. cbn [utf8_go rune_len] in H.
+    destruct (N.ltb (nb b0) 128) eqn:E0.
+    + apply U1; [exact E0 | apply IH; [lia | exact H]].
+    + destruct r as [|b1 r1]; [cbn in H; discriminate|]. cbn [length] in Hl.
+      destruct (wf2 b0 b1) eqn:E2.
+      * apply U2; [exact E2 | apply IH; [lia | exact H]].
+      * destruct r1 as [|b2 r2]; [cbn in H; discriminate|]. cbn [length] in Hl.
+        destruct (wf3 b0 b1 b2) eqn:E3.
+        -- apply U3; [exact E3 | apply IH; [lia | exact H]].
+        -- destruct r2 as [|b3 r3]; [cbn in H; discriminate|]. cbn [length] in Hl.
+           destruct (wf4 b0 b1 b2 b3) eqn:E4; [|cbn in H; discriminate].
+           apply U4; [exact E4 | apply IH; [lia | exact H]].
+Qed.
+
+Lemma utf8b_iff : forall s, utf8b s = true <-> utf8 s.
+Proof.
+  intros s. split; [apply (utf8b_utf8_n (length s)); lia | apply utf8_utf8b].
+Qed.
+
 (* ---------------------------------------------------------------------------------------- *)
 (* the whole vocabulary *)
 
@@ -741,6 +764,58 @@ Qed.
 Lemma fragments_spec : forall x,
   frag all_fixed (SFragments x) = if isnil_of x then Ok [] else frag all_fixed x.
 Proof. intros x. cbn [frag]. rewrite is_nil_call_fixed. reflexivity. Qed.
+
+(* ---------------------------------------------------------------------------------------- *)
+(* the guard of render_dom is the complement of the two recorded classes inside the property's domain *)
+
+Lemma forallb_andb : forall {A} (f g : A -> bool) l,
+  forallb (fun x => f x && g x) l = forallb f l && forallb g l.
+Proof.
+  intros A f g l. induction l as [|x r IH]; [reflexivity|]. cbn [forallb]. rewrite IH.
+  destruct (f x), (g x), (forallb f r), (forallb g r); reflexivity.
+Qed.
+
+Lemma forallb_negb_existsb : forall {A} (h : A -> bool) l,
+  forallb (fun x => negb (h x)) l = negb (existsb h l).
+Proof.
+  intros A h l. induction l as [|x r IH]; [reflexivity|]. cbn [forallb existsb]. rewrite IH.
+  destruct (h x), (existsb h r); reflexivity.
+Qed.
+
+Lemma forallb_ext_Forall : forall {A} (f g : A -> bool) l,
+  Forall (fun x => f x = g x) l -> forallb f l = forallb g l.
+Proof.
+  intros A f g l H. induction H as [|x r Hx _ IH]; [reflexivity|]. cbn [forallb]. rewrite Hx, IH. reflexivity.
+Qed.
+
+Lemma fmts_ok_classes : forall s, fmts_ok s = fmts_utf8 s && negb (cls_bom s).
+Proof.
+  induction s as [|b|f args IH|f args IH|a b|v|d a|l IH|x IH|n o] using snip_ind'; try reflexivity.
+  - cbn [fmts_ok fmts_utf8 cls_bom].
+    rewrite (forallb_ext_Forall (fun p => fmts_ok (snd p))
+               (fun p => fmts_utf8 (snd p) && negb (cls_bom (snd p))) args IH).
+    rewrite (forallb_andb (fun p => fmts_utf8 (snd p)) (fun p => negb (cls_bom (snd p)))).
+    rewrite (forallb_negb_existsb (fun p => cls_bom (snd p))). unfold fmt_ok.
+    destruct (utf8b (trim_nl f)), (has_bom (trim_nl f)), (forallb (fun p => fmts_utf8 (snd p)) args),
+      (existsb (fun p => cls_bom (snd p)) args); reflexivity.
+  - cbn [fmts_ok fmts_utf8 cls_bom].
+    rewrite (forallb_ext_Forall fmts_ok (fun p => fmts_utf8 p && negb (cls_bom p)) args IH).
+    rewrite (forallb_andb fmts_utf8 (fun p => negb (cls_bom p))).
+    rewrite (forallb_negb_existsb cls_bom). unfold fmt_ok.
+    destruct (utf8b f), (has_bom f), (forallb fmts_utf8 args), (existsb cls_bom args); reflexivity.
+  - cbn [fmts_ok fmts_utf8 cls_bom].
+    rewrite (forallb_ext_Forall fmts_ok (fun p => fmts_utf8 p && negb (cls_bom p)) l IH).
+    rewrite (forallb_andb fmts_utf8 (fun p => negb (cls_bom p))).
+    rewrite (forallb_negb_existsb cls_bom). reflexivity.
+  - cbn [fmts_ok fmts_utf8 cls_bom]. exact IH.
+Qed.
+
+Lemma render_dom_classes : forall s,
+  fmts_utf8 s = true -> cls_bom s = false -> cls_nolit s = false ->
+  render all_fixed s = spec_render same OutOfFuel s.
+Proof.
+  intros s Hu Hb Hn. apply render_dom; [|exact Hn]. rewrite fmts_ok_classes, Hu, Hb. reflexivity.
+Qed.
 
 (* ---------------------------------------------------------------------------------------- *)
 (* the statements of Props/C09.v *)
